@@ -27,7 +27,7 @@ Proof.
 Qed.
 Lemma mem_false u l : mem u l = false <-> ~ In u l.
 Proof.
-  rewrite <- mem_In. destruct (mem u l); split; intros; try congruence. exfalso; auto.
+  rewrite <- mem_In. destruct (mem u l); intuition congruence.
 Qed.
 
 Lemma ref_eqb_eq a b : ref_eqb a b = true <-> a = b.
@@ -50,7 +50,7 @@ Proof.
 Qed.
 Lemma memr_false r l : memr r l = false <-> ~ In r l.
 Proof.
-  rewrite <- memr_In. destruct (memr r l); split; intros; try congruence. exfalso; auto.
+  rewrite <- memr_In. destruct (memr r l); intuition congruence.
 Qed.
 
 (* ================= pre-selection: first occurrences, each once ================= *)
@@ -127,13 +127,26 @@ Proof.
   - now apply chain_sound.
 Qed.
 
+Lemma NoDup_app_l {A} (a b : list A) : NoDup (a ++ b) -> NoDup a.
+Proof.
+  induction a as [|x a IH]; cbn; intros H; [constructor|]. inversion H as [|? ? Hx Hr]; subst.
+  constructor; [|auto]. intros X. apply Hx. apply in_or_app. now left.
+Qed.
+Lemma NoDup_app_intro {A} (a b : list A) :
+  NoDup a -> NoDup b -> (forall x, In x a -> In x b -> False) -> NoDup (a ++ b).
+Proof.
+  induction 1 as [|x a Hx Ha IH]; cbn; intros Hb D; [exact Hb|]. constructor.
+  - intros X. apply in_app_or in X. destruct X as [X|X]; [contradiction|]. apply (D x); [now left | exact X].
+  - apply IH; [exact Hb|]. intros y Hy. apply D. now right.
+Qed.
+
 Lemma submulti_incl {A} (pool r rest : list A) : Permutation pool (r ++ rest) -> incl r pool.
 Proof.
   intros P x Hx. apply Permutation_sym in P. eapply Permutation_in; [exact P|]. apply in_or_app. now left.
 Qed.
 Lemma submulti_NoDup {A} (pool r rest : list A) : Permutation pool (r ++ rest) -> NoDup pool -> NoDup r.
 Proof.
-  intros P N. eapply Permutation_NoDup in N; [|exact P]. now apply NoDup_app_remove_r in N.
+  intros P N. eapply Permutation_NoDup in N; [|exact P]. now apply NoDup_app_l in N.
 Qed.
 
 (* ================= the order: hex strings versus bytes ================= *)
@@ -400,26 +413,26 @@ Section Build.
     - apply preselect_NoDup.
     - eapply submulti_NoDup; [exact P | apply gather_NoDup].
     - intros x H1 H2. apply (submulti_incl _ _ _ P) in H2. unfold pool_of in H2.
-      apply gather_In in H2. tauto.
+      rewrite gather_In in H2. tauto.
   Qed.
 
   (* 2. provenance *)
   Lemma build_incl_permitted : incl sel (permitted c st).
   Proof.
-    destruct build_parts as [_ [r [rest [-> P]]]]. intros x Hx. apply sort_In in Hx.
+    destruct build_parts as [_ [r [rest [-> P]]]]. intros x Hx. rewrite sort_In in Hx.
     unfold permitted. apply in_app_or in Hx. destruct Hx as [Hx|Hx].
-    - apply preselect_In in Hx. apply in_or_app. now left.
-    - apply (submulti_incl _ _ _ P) in Hx. unfold pool_of in Hx. apply gather_In in Hx.
+    - rewrite preselect_In in Hx. apply in_or_app. now left.
+    - apply (submulti_incl _ _ _ P) in Hx. unfold pool_of in Hx. rewrite gather_In in Hx.
       apply in_or_app. right. apply Hx.
   Qed.
 
   (* 4. exclusion *)
   Lemma build_no_excluded : forall u, In u (excluded st) -> ~ In u sel.
   Proof.
-    destruct build_parts as [Hc [r [rest [-> P]]]]. intros u He Hx. apply sort_In in Hx.
+    destruct build_parts as [Hc [r [rest [-> P]]]]. intros u He Hx. rewrite sort_In in Hx.
     apply in_app_or in Hx. destruct Hx as [Hx|Hx].
-    - apply preselect_In in Hx. assert (conflict st = true) by (apply conflict_spec; eauto). congruence.
-    - apply (submulti_incl _ _ _ P) in Hx. unfold pool_of in Hx. apply gather_In in Hx. tauto.
+    - rewrite preselect_In in Hx. assert (conflict st = true) by (apply conflict_spec; eauto). congruence.
+    - apply (submulti_incl _ _ _ P) in Hx. unfold pool_of in Hx. rewrite gather_In in Hx. tauto.
   Qed.
 End Build.
 
@@ -428,7 +441,7 @@ Lemma build_explicit_present c sels need st sel : build c sels need st = BOk sel
   forall u, In u (explicit st) -> In u sel.
 Proof.
   intros Hb u Hu. destruct (build_ok_inv _ _ _ _ _ Hb) as [_ [r [-> _]]].
-  apply sort_In. apply in_or_app. left. now apply preselect_In.
+  rewrite sort_In. apply in_or_app. left. now rewrite preselect_In.
 Qed.
 
 (* 5. conflict: refused, whatever the selectors *)
